@@ -396,10 +396,11 @@ class ExtModel:
                 self.unmodelled.add(name)
                 interp.emit(st, "unmodelled", name, node, recv=recv, args=args)
                 raises = ()
-        for exc in raises:
-            outs.append(self._raise(interp, st.copy(), exc, node, f"{name} may raise {exc.__name__}"))
+        # the call event is recorded before the outcomes fork: a failing operation was still attempted
         if not any(name.startswith(p) for p in NOISE_PREFIXES):
             interp.emit(st, "call", name, node, recv=recv, args=args, kwargs=kwargs, with_facts=True)
+        for exc in raises:
+            outs.append(self._raise(interp, st.copy(), exc, node, f"{name} may raise {exc.__name__}"))
         outs.append(("val", st, self.result_of(interp, st, name, recv, args, kwargs, node)))
         return outs
 
@@ -832,6 +833,13 @@ class ExtModel:
         if reg is None:
             raise AnalysisError(f"no handler registry reflected for version {ver}")
         return [("val", st, self.registry_value(interp, reg, interp.refl["consts"][ver].get("registry_name", "?")))]
+
+    def m_serial_threaded_LineReader_connection_made(self, interp, st, recv, args, kwargs, node):
+        # pyserial Protocol.connection_made stores the transport on the protocol object
+        interp.emit(st, "call", "serial.threaded.LineReader.connection_made", node, recv=recv, args=args)
+        if recv is not None and args:
+            st.mem[(recv.key(), "a", "transport")] = args[0]
+        return [("val", st, Const(None))]
 
     def m_asyncio_loop_run_in_executor(self, interp, st, recv, args, kwargs, node):
         interp.emit(st, "executor", "run_in_executor", node, args=args[1:])
